@@ -37,8 +37,12 @@ FAMILIES["idx"] = dict(
     queries=[
         "findall(Y, p(a,Y), L)", "findall(X, p(X,a), L)", "findall(t(X,Y), p(X,Y), L)", "p(a,Y)",
         # 4
-        "p(X,Y)", "p(X,X)", "findall(Y, (s(X), p(X,Y)), L)", "findall(X, p(X,X), L)",
+        "p(X,Y)", "p(X,X)", "findall(Y, (s(X), p(X,Y)), L)",
+        # the same predicate called with a repeated variable and then with distinct variables (the table
+        # key of a non-ground call must record variable sharing between argument positions)
+        "findall(t(X,Y), (p(Z,Z), p(X,Y)), L)",
         # 8
+        "findall(X, p(X,X), L)",
         "findall(Y, p(f(a),Y), L)", "p(X,a)", "findall(Y, (p(a,Y), \\+ p(b,Y)), L)",
         "findall(Y, (p(a,Y) ; p(b,Y)), L)",
         # 12
